@@ -21,7 +21,7 @@ def queries(tier):
     B = 0x80000000
     # valid values of the structural fields of BASE: header 92 (0x5c), vols padded 12, actual 7 ("a\0Bc.x\0"), voli 42
     fields = {
-        0: ("VOL header length", [B | 0, B | 91, B | 93, B | 0x7FFFFFFF, 92, 0xFFFFFFFF]),
+        0: ("VOL header length", [B | 0, B | 91, B | 93, B | 0x7FFFFFFF, 92]),
         1: ("volh length", [B | 1, 0, 0xFFFFFFFF]),
         2: ("vols padded length", [B | 0, B | 8, B | 11, B | 16, B | 0x7FFFFFFF, 12]),
         3: ("vols actual length", [0, 6, 8, 9, 13, 0x7FFFFFFF, 0x80000000, 0xFFFFFFFF]),
